@@ -129,9 +129,18 @@ def run(ctx, rep):
                        '(wraps to ~1.8e19 days)', where=lib.bodies[nd].span)
 
     # ---- R14.2 per-day loop ---------------------------------------------------------------------
+    # the pieces the single-date API is made of stay opaque: the range API is compared with it at that level
+    from ..facts import callee_name
+    pieces = set()
+    for _, t_ in lib.bodies[dt].calls():
+        n_ = callee_name(t_)
+        b_ = lib.bodies.get(n_)
+        if b_ is not None and b_.kind in ('Fn', 'AssocFn') and not b_.derived:
+            pieces.add(n_)
     eng = ctx.engine()
     eng.opaque.add(dt)
     eng.opaque.add(nd)
+    eng.opaque |= pieces
     calls = []
     inserts = []
 
@@ -146,8 +155,32 @@ def run(ctx, rep):
     eng.hooks['map_insert'] = hook_ins
     args = eng.sym_args(rng_fn, ['params', 'location', 'date_range'])
     tree = eng.call_entry(rng_fn, args)
-    rep.floor('single-date API calls in the range API', len(calls), 1)
     rep.floor('result insertions in the range API', len(inserts), 1)
+    if not calls:
+        # the range API does not call the single-date API itself: every stored value must then be the single-date
+        # API's own value term for the date it is stored under
+        n_same = 0
+        for (k, v, fn2) in inserts:
+            eng_d = ctx.engine()
+            eng_d.opaque.add(nd)
+            eng_d.opaque |= pieces
+            tree_d = eng_d.call_entry(dt, [('param', 'params'), ('param', 'location'), k, E.NONE])
+            lv_d = list(E.leaves_of(tree_d))
+            if len(lv_d) != 1:
+                rep.ob('R14.2', 'stored-value-is-single-date-value', None, f'{len(lv_d)} outcomes of the single-date API at the level of its pieces')
+                continue
+            want = E.intern(eng_d.purify(lv_d[0], lv_d[0].ret))
+            got = E.intern(v)
+            okv = want == got
+            if okv:
+                n_same += 1
+            rep.ob('R14.2', 'stored-value-is-single-date-value', okv,
+                   'the value stored under date d is the single-date API\'s value for d' if okv else
+                   f'the value stored under {show(k, maxd=3)[:60]} is {show(got, maxd=4)[:200]} but the single-date API computes '
+                   f'{show(want, maxd=4)[:200]} for that date', where=lib.bodies[rng_fn].span)
+        rep.floor('stored values compared with the single-date API', n_same + (len(inserts) - n_same), 1)
+    else:
+        rep.floor('single-date API calls in the range API', len(calls), 1)
     for (a, fn) in calls:
         okp = a[0] == ('param', 'params')
         okl = a[1] == ('param', 'location')
@@ -163,7 +196,8 @@ def run(ctx, rep):
             ok_n = n == ('app', nd, (('param', 'date_range'),))
             oki = ok_src and ok_n
             detail = f'iterates {show(src, maxd=4)[:80]} limited by {show(n, maxd=3)[:60]}'
-        rep.ob('R14.2', 'iteration', oki, detail + ('' if oki else ' - expected start.iter_days().take(num_days())'))
+        recognised = it is not None and it[0] == 'iter' and it[1] == 'take'
+        rep.ob('R14.2', 'iteration', oki if recognised else None, detail + ('' if oki else ' - expected start.iter_days().take(num_days())'))
         rep.ob('R14.2', 'same-params', okp and okl and okw, 'single-date API receives the unchanged params, location and no weather'
                if okp and okl and okw else f'arguments: {show(a[0])[:40]}, {show(a[1])[:40]}, weather {show(a[3])[:40]}')
         for (k, v, fn2) in inserts:
